@@ -199,6 +199,7 @@ def prop_far(zen, azi, rows, ngain, ntxt):
 
 def run(ck):
     ck.proof_side()
+    ck.cov['further_clauses'] = 'printed FIELD POINT coordinates of the E and H tables against the model grid, incl. grids crossing a thick wire'
     d = ck.get_driver()
     rng = ck.rng
     N_near = 60 if ck.tier == 'quick' else 600
@@ -252,15 +253,41 @@ def run(ck):
             return
     # a few end-to-end reports: number of FIELD POINT blocks printed
     rep_cases = cases[:5] + cases[5:5 + (4 if ck.tier == 'quick' else 20)] + [c for c in cases[5:] if 0.0 in c[1]][:6]
-    for (start, inc, n) in rep_cases:
+    import re
+    # requests with points inside the conductor of a thick wire (off the axis, within the radius), on its surface and on its axis
+    THICK = ['-f', '10', '-w', '10,0,0,-1,0,0,1,0.01', '--excitation-pulse=5']
+    thick = [([-0.008, 0.0, 0.1], [0.004, 0.0, 0.05], [5, 1, 3]), ([0.006, 0.006, -0.3], [-0.003, -0.003, 0.2], [5, 5, 2]),
+             ([0.01, 0.0, 0.0], [-0.0025, 0.0, 0.0], [9, 1, 1])]
+    for (start, inc, n) in rep_cases + thick:
         if n[0] * n[1] * n[2] > 60:
             continue
-        r = run_main(near_argv(start, inc, n))
+        is_thick = (start, inc, n) in thick
+        argv = near_argv(start, inc, n) if not is_thick else \
+            THICK + ['--near-field=' + ','.join([repr(x) for x in start + inc] + [str(k) for k in n])]
+        r = run_main(argv)
         pts = r['out'].count('FIELD POINT:')
-        ck.case(('near-report', tuple(start), tuple(inc), tuple(n)), True)
+        ck.case(('near-report', tuple(start), tuple(inc), tuple(n), is_thick), True)
         if r['kind'] != 'report' or pts != 2 * n[0] * n[1] * n[2]:
             disagreements.append(dict(kind='near', start=start, inc=inc, n=n, report_points=pts,
                                       outcome=r['kind'], exc=r['exc']))
+            continue
+        # the printed coordinates: the E table and then the H table, each point of the grid once, in grid order
+        ans = d.ask('grid near', *[f2b(x) for x in start + inc], *n).split()
+        grid = [tuple(b2f(ans[i + j]) for j in range(3)) for i in range(0, len(ans), 3)]
+        printed = [tuple(float(v) for v in mm) for mm in
+                   re.findall(r'FIELD POINT: X =\s*(\S+)\s+Y =\s*(\S+)\s+Z =\s*(\S+)', r['out'])]
+        want = grid + grid
+        badp = None
+        if len(printed) != len(want):
+            badp = '%d coordinate lines for %d points' % (len(printed), len(want))
+        else:
+            for k_, (a_, b_) in enumerate(zip(printed, want)):
+                if any(abs(x_ - y_) > 2e-6 * max(abs(y_), 1e-3) for x_, y_ in zip(a_, b_)):
+                    badp = 'printed field point %d is %r, requested point %r' % (k_ + 1, a_, b_)
+                    break
+        if badp:
+            ck.violation(dict(kind='near-printed', start=start, inc=inc, n=n, argv=argv, observed=badp))
+            return
     # far field
     for _ in range(N_far):
         zen = [rng.choice([0.0, dec(rng), -dec(rng)]), dec(rng) * rng.choice([1, 1, -1]), rng.randint(1, 100 if rng.random() < .2 else 12)]
